@@ -10,6 +10,7 @@
 package c17
 
 import (
+	"bytes"
 	_ "embed"
 	"encoding/json"
 	"fmt"
@@ -38,6 +39,22 @@ type Driver struct{}
 var corpus []byte
 
 var dumpMu sync.Mutex
+
+// corpusKeys: (items,width) keys of the stored scenarios, for the evidence counters.
+var corpusKeys = func() map[string]bool {
+	m := map[string]bool{}
+	for _, ln := range bytes.Split(corpus, []byte("\n")) {
+		var x struct {
+			Items [][6]int `json:"items"`
+			Width int      `json:"width"`
+		}
+		if len(ln) > 0 && json.Unmarshal(ln, &x) == nil {
+			b, _ := json.Marshal(x.Items)
+			m[string(b)+"/"+strconv.Itoa(x.Width)] = true
+		}
+	}
+	return m
+}()
 
 func (Driver) ID() string { return "C17" }
 
@@ -483,7 +500,7 @@ func (d Driver) Run(c *core.Ctx) error {
 							sigs[m.Signature] = true
 						}
 					}
-					b, _ := json.Marshal(map[string]any{"items": v.Items, "width": v.Width, "feat": v.Feat, "sigs": sigs, "sf": v.SF})
+					b, _ := json.Marshal(map[string]any{"items": v.Items, "width": v.Width, "feat": v.Feat, "sigs": sigs, "sf": v.SF, "sfx": v.SFX})
 					dumpMu.Lock()
 					if fh, err := os.OpenFile(f, os.O_APPEND|os.O_CREATE|os.O_WRONLY, 0o644); err == nil {
 						fh.Write(append(b, '\n'))
@@ -503,6 +520,9 @@ func (d Driver) Run(c *core.Ctx) error {
 				}
 				if v.hasFeat("viadearer") {
 					c.AddExtra("corpus_optimum_via_dearer_class", 1)
+				}
+				if len(v.Ln) == 0 && len(v.Items) > 0 && !v.Complete && corpusKeys[key2(v)] {
+					c.AddExtra("corpus_scenarios", 1)
 				}
 				if len(v.Brk) >= 2 && (v.SF || (v.AllInf && v.SShr)) {
 					if _, dup := seen.LoadOrStore(key2(v), true); !dup {
